@@ -98,6 +98,62 @@ def token_soup(draw: Any) -> Tuple[str, str]:
     return "proto s\n" * draw(st.integers(0, 1)) + sep.join(toks), "soup"
 
 
+@st.composite
+def arith_texts(draw: Any) -> Tuple[str, str]:
+    """Constant arithmetic far outside the machine ranges: literals of 1..1000 digits (decimal and hexadecimal, i.e.
+    beyond 2**64, 2**1024 = the float range, 10**308), all four operators, parentheses, references to earlier
+    constants, negative intermediate and final results (`0 - X`), quotients of every sign combination, division by
+    an expression that is zero.  Products are kept below the 4300-digit limit of recorded finding N1."""
+
+    def literal(big: bool) -> str:
+        n = draw(st.sampled_from([1, 2, 5, 19, 20, 39, 78, 155, 308, 309, 310, 617, 1000] if big else [1, 1, 2, 3, 5]))
+        if draw(st.booleans()):
+            first = draw(st.sampled_from("123456789"))
+            rest = "".join(draw(st.lists(st.sampled_from("0123456789"), min_size=0, max_size=min(n - 1, 6)))) if n > 1 else ""
+            return first + rest + draw(st.sampled_from("0919")) * max(0, n - 1 - len(rest))
+        hexn = max(1, n * 5 // 6)
+        return "0x" + draw(st.sampled_from("123456789abcdefABCDEF")) + draw(st.sampled_from("0fF7a")) * (hexn - 1)
+
+    names: List[str] = []
+
+    def atom(allow_ref: bool) -> str:
+        r = draw(st.integers(0, 5))
+        if r == 0 and names and allow_ref:
+            return draw(st.sampled_from(names))
+        if r == 1:
+            return "(0 - " + literal(draw(st.booleans())) + ")"
+        return literal(draw(st.integers(0, 2)) > 0)
+
+    def product() -> str:
+        k = draw(st.sampled_from([1, 1, 2, 3]))
+        # (at most three literal factors of <= 1000 digits: below N1's limit; references are never multiplied)
+        parts = [literal(True) if k > 1 else atom(True)] + [atom(False) for _ in range(k - 1)]
+        if k > 1:
+            parts = [p if len(p) <= 1010 else literal(False) for p in parts]
+        return " * ".join(parts)
+
+    def expr(depth: int) -> str:
+        if depth <= 0:
+            return product()
+        op = draw(st.sampled_from(["+", "-", "-", "/", "/", "/"]))
+        a, b = expr(depth - 1), expr(depth - draw(st.integers(1, 2)))
+        if draw(st.booleans()):
+            a = "(" + a + ")"
+        if draw(st.booleans()) or op == "/":
+            b = "(" + b + ")"
+        return f"{a} {op} {b}"
+
+    lines = ["proto ar", ""]
+    for i in range(draw(st.integers(1, 5))):
+        e = expr(draw(st.integers(0, 3)))
+        name = "K" + "ABCDE"[i]
+        lines.append(f"const {name} = {e}")
+        names.append(name)
+    if draw(st.booleans()):
+        lines += ["", "message M {", f"    byte[{draw(st.sampled_from(names))}] data = 1", "}"]
+    return "\n".join(lines) + "\n", "arith"
+
+
 # ---------------------------------------------------------------------------
 # input domain: text inputs, sandboxed import paths, recorded-finding shapes
 # ---------------------------------------------------------------------------
@@ -172,6 +228,8 @@ def classify(exc: BaseException, text: str, stage: str, root: str) -> Tuple[str,
         return bucket, "N1"
     if isinstance(exc, RecursionError) and _max_depth(text) > 200:
         return bucket, "N5"
+    if isinstance(exc, ValueError) and "embedded null byte" in str(exc) and "\0" in text and "import" in text:
+        return bucket, "N12"
     if stage == "render:py" and isinstance(exc, IndexError) and "impls/py/formatter.py" in frame and EMPTY_ENUM_RE.search(text):
         return bucket, "D3"
     return bucket, None
